@@ -4,7 +4,7 @@
 cd /repo || exit 2
 [ -n "$(git status --porcelain)" ] && { echo "repo dirty"; exit 2; }
 id=$1; shift
-git apply --3way /verif/neutral/$id/patch.diff 2>/dev/null || git apply /verif/neutral/$id/patch.diff || { echo "$id APPLY-FAILED"; git checkout -q -- .; exit 3; }
+git apply --3way /verif/neutral/$id/patch.diff 2>/dev/null || git apply /verif/neutral/$id/patch.diff || { echo "$id APPLY-FAILED"; git reset -q --hard HEAD; git clean -fdq; exit 3; }
 git reset -q
 export GOFLAGS=-mod=mod GOPROXY=off GOSUMDB=off GOTOOLCHAIN=local
 if ! go build ./... 2>/tmp/nb.err || ! go build -tags verif ./... 2>>/tmp/nb.err; then echo "$id BUILD-FAILED $(head -2 /tmp/nb.err)"; git checkout -q -- . ; git clean -fdq; exit 3; fi
